@@ -167,7 +167,8 @@ def run_property(prop_id, tier="quick", verif_seed=0, nruns=None, workers=None, 
     # 1. witnesses of listed findings are replayed first
     witness_log = []
     for f in known_list:
-        if not f.witness:
+        if not f.witness or os.environ.get("VERIF_NO_WITNESS"):
+            # (VERIF_NO_WITNESS is set by the sensitivity self-test only: a reverted fix must be re-found by search)
             continue
         wp = os.path.join(HOME, f.witness)
         doc, r = replay_file(wp, strict=True)
